@@ -18,13 +18,15 @@ CLAIMS = {
          "q*b = a when re b <> 0, + - neg are part-wise; vector types for every direction, dimension and presence pattern (shape premises proved invariant). Re-proved on every run against the "
          "model regenerated from /repo; the binary64 reading of the same generated code is executed in Coq and compared bit for bit with the implementation. Partial: exactness on dyadic grids "
          "is decided by exact rational comparison on the implementation (testing), not by a float-level theorem."),
- 'C03': ("Coq proof by induction on programs (Hand/Prog.v, evaluated over the TRANSLATED operations): first-order parts of every type are Coquelicot derivatives of the real function along the input curves; real part = real evaluation; higher parts by the agreement theorem + per-operation Faa di Bruno/Leibniz theorems; bit-exact correspondence of whole programs",
+ 'C03': ("Coq proof by induction on programs (Hand/Prog.v, evaluated over the TRANSLATED operations): Dual, Dual2, Dual3 carry the first, second and third Coquelicot derivative of the composed real function along the input curves; every first-order direction of every type; real part = real evaluation; other higher/mixed parts through the agreement theorem; bit-exact correspondence of whole programs",
          "Programs are an expression syntax with sharing (variables, integer constants, 23 unary operations, + - * / with dual and scalar right operands, powi, let), interpreted by Prog.eval over ANY instance of the translated "
-         "interface; the Rust harness has the same interpreter generic in DualNum. Theorems (Props/C03.v, 12): for every program, every list of differentiable input curves and every point where each intermediate REAL value lies in "
+         "interface; the Rust harness has the same interpreter generic in DualNum. Theorems (Props/C03.v, 16): for every program, every list of differentiable input curves and every point where each intermediate REAL value lies in "
          "the domain of the operation applied to it (okR, a condition on the real function alone), the evaluation over Dual has real part = the real function and eps = its derivative (is_derive) along the curves; the same for the "
          "first-order part in ANY direction of Dual2, Dual3, HyperDual, HyperHyperDual, DualVec, Dual2Vec, HyperDualVec (every component, dimension, presence pattern) and of Dual<Dual>, Dual<Dual<Dual>> (induction on programs with a "
-         "generic jet-algebra interface JetAlgF that each type is PROVED to satisfy from the C01/C02/C08/C09 theorems about the regenerated code). Higher and mixed parts: every operation is proved Leibniz / Faa di Bruno with true "
-         "derivative towers (C01, C02, C09) and all types are tied together part by part by the agreement theorems (C04), but no analytic statement 'v2 = second derivative of the composed real function' is proved (partial). "
+         "generic jet-algebra interface JetAlgF that each type is PROVED to satisfy from the C01/C02/C08/C09 theorems about the regenerated code). Higher order: the evaluation over Dual2 carries, in v1 and v2, the first and SECOND "
+         "derivative of the composed real function (there is a derivative function near the point whose value is v1 and whose derivative at the point is v2), and over Dual3 additionally the THIRD in v3 -- both by induction on programs, "
+         "with the derivative towers of the 22 functions and of powi at every point of their open domains. The remaining higher and mixed parts (HyperDual, HyperHyperDual, vector types, nestings) are tied to these part by part by the "
+         "agreement theorems of C04 when seeded along one variable; no analytic statement is proved for MIXED partial derivatives (several variables in different slots): there each operation is Leibniz / Faa di Bruno with true towers (C01, C02, C09). "
          "mul_add and iterator sum/product are proved equal to operator compositions in C08 and are not separate syntax. Whole random programs are run through the translated model inside Coq (binary64, libm from the oracle table) "
          "and must equal the implementation bit for bit; the rounding clause is decided on the implementation by reference jets with a first-order running error bound propagated through the same jet algebra, and exactly on dyadic grids (testing)."),
  'C04': ("Coq proof: one generic agreement theorem (induction on programs over two jet algebras related by a relabelling of directions) instantiated for every pair of types; NDERIV additivity for an arbitrary instance; bit-exact correspondence and cross-type runs of whole programs",
@@ -65,9 +67,9 @@ CLAIMS = {
          "and by an oracle requiring every part finite and equal to the mathematical jet (this is enumeration of a finite set of points with random derivative parts, not a theorem about all parts)."),
  'C14': ("Coq proof on a hand model of bessel.rs whose tables, constants and literals are regenerated from the source: Horner semantics, every branch over Dual returns value and Coquelicot derivative of the real function the same code computes, denominators positive, branch selection by the real part, parity of every part; model executed in Coq bit for bit against the implementation; accuracy against 60-digit references (tested); three fixes recorded",
          "Hand model coq/ND/Hand/Bessel.v (control structure by hand; all 13 coefficient tables, the scalar constants and the numeric literals of each function come from gen/Gen_Bessel.v, rewritten from src/bessel.rs on every run). "
-         "Theorems (Props/C14.v, 13): polevl / p1evl are the Horner evaluations of the polynomials with the listed coefficients; for any differentiable curve, the small-argument, rational and asymptotic branches of bessel_j0, the rational "
+         "Theorems (Props/C14.v, 18): polevl / p1evl are the Horner evaluations of the polynomials with the listed coefficients; for any differentiable curve, the small-argument, rational and asymptotic branches of bessel_j0, the rational "
          "branch of bessel_j1 and the series branch of bessel_j2, evaluated over Dual, carry the value and the derivative (is_derive) of the real function the same code computes -- whatever the coefficients are; the six denominators are "
-         "positive for every z >= 0 (so no side conditions remain); which branch runs is decided by the real part; J0(-X) = J0(X), J1(-X) = -J1(X), J2(-X) = J2(X) in every part. The model is executed in Coq on binary64 (libm from the "
+         "positive for every z >= 0 (so no side conditions remain); which branch runs is decided by the real part; bessel_j0 itself on (1e-5, 5) and (5, inf), bessel_j1 on |x| < 5 and bessel_j2 on |x| < 0.25 carry value and derivative of the real function they compute (locality of the branch by continuity); J0(-X) = J0(X), J1(-X) = -J1(X), J2(-X) = J2(X) in every part. The model is executed in Coq on binary64 (libm from the "
          "oracle table) on every Copy type incl. nestings to fourth order and must equal the implementation bit for bit. NOT proved: closeness of the approximating functions to the true J0, J1, J2 (a statement about 104 floating-point "
          "coefficients) and the asymptotic branch of J1 as a derivative statement; decided on the implementation against mpmath J_n^(k) at 60 digits with absolute accuracy 16 u 32^k (1+|x|/8) for the k-th derivative, at 0, denormals, "
          "both sides of every switch point, zeros of J0/J1/J2, up to |x| = 60, both signs, with parity checked exactly. Higher-order parts follow from C03/C04 applied to the same composition of generic operations (not restated here)."),
@@ -83,7 +85,7 @@ CLAIMS = {
          "operands (reflected operators), ** with int / float / dual, unary minus, constructors, from_re, getters, repr; the ten driver functions on closures written with Python operators (gradient / hessian with 1..12 variables: the "
          "fixed-size classes up to 10 and the dynamic class beyond; jacobian 1..10; partial_hessian; third_partial_derivative_vec). Expected = the corresponding Rust operation through the harness, rendered by Display; Python repr must be that "
          "string (Rust's float Display is the shortest round-trip decimal: equal strings, equal bits; -0 is read as 0 as everywhere in this framework), getters the stored parts, drivers the Rust driver's floats on the same closure. The same "
-         "expected chains are evaluated on the translated model inside Coq and must agree bit for bit, so Python = Rust = model. Theorems (Props/C17.v, 7) on the hand model Hand/PyWrap.v: for Dual, Dual2, Dual3, HyperDual, HyperHyperDual over "
+         "expected chains are evaluated on the translated model inside Coq and must agree bit for bit, so Python = Rust = model. Theorems (Props/C17.v, 10): the forwarding table, the reflected-operator bodies and the ** dispatch order extracted from src/python_macro.rs on every run (tools/gen_pywrap.py) are the documented ones (so a wrapper forwarding to the wrong function breaks a theorem, not only the run-time comparison); on the hand model Hand/PyWrap.v: for Dual, Dual2, Dual3, HyperDual, HyperHyperDual over "
          "R, f + d, f - d, f * d, f / d as the macro composes them (d + f, (-d) + f, d * f, recip(d) * f) equal the operation with f lifted to a constant on the left, in every part (re d <> 0 for /); for an arbitrary number type the "
          "renamed methods (expm1, log, log1p, arcsin..) are the Rust operations exp_m1, ln, ln_1p, asin.. and ** dispatches to powi / powf / powd. NOT covered: numpy array right operands (broadcasting), pickling; jacobian beyond 10 "
          "variables raises by design. Trusted: pyo3 argument conversion, numpy."),
@@ -95,7 +97,7 @@ CLAIMS = {
          "Trusted: Rust's float Display/parse round trip (re-checked on every case), nalgebra's 2-D matrix printer (numbers compared in reading order). Python repr = Display is decided under C17."),
  'C16': ("Coq proof on a structural model of serde_derive whose per-struct (key, member) tables are extracted from the macro-expanded source: coherence of the tables by computation, round trip for every nesting by induction on the type code; serde_json round trips compared with the model",
          "The serde_derive output in the macro-expanded source is read by tools/gen_serde.py: for every scalar struct the (key, member) pairs in serialization order and the (key, member) pairs the Deserialize visitor "
-         "assigns (so skip / rename / a swapped field change the tables). Theorems (Props/C16.v, axiom-free): the extracted tables are coherent (same pairs on both sides, distinct keys, exactly the declared members in "
+         "assigns (so skip / rename / a swapped field change the tables). Theorems (Props/C16.v, 4, axiom-free): no field is serialized conditionally and every key is required on input (skip_serializing_if / default would show in the extracted tables); the extracted tables are coherent (same pairs on both sides, distinct keys, exactly the declared members in "
          "declaration order -- by vm_compute on the regenerated tables); for every type built by nesting the five scalar structs over a float leaf and every leaf codec that round-trips the leaf, de (ser v) = Some v "
          "(induction on the type code, Hand/Serde.v); the keys are exactly the documented names in order. The implementation's serde_json round trip is run on all scalar types, f32/f64 and nestings to depth 3: every part "
          "bit for bit, and the key sequence of the JSON text against the model. Trusted: serde_derive's and serde_json's semantics as modelled (map with named entries), the leaf float codec (values restricted to those "
